@@ -206,6 +206,7 @@ macro_rules | `(tactic| tot_lemma) => `(tactic| assumption)
 /-- One syntax-directed step on a goal `Tot B m` / `TotA B lx m`. -/
 macro "tot_step" : tactic => `(tactic| first
   | with_reducible tot_lemma
+  | with_reducible exact TotA.of_tot (by tot_lemma)
   | with_reducible exact Tot.pure _
   | with_reducible exact Tot.ffound _ _
   | with_reducible exact Tot.fat _ _
